@@ -1,7 +1,7 @@
 #!/bin/bash
 # run_benign.sh <dir-with-patch.diff> : applies a behaviour-preserving change to /repo, runs every property's quick check,
 # reverts, and prints which checks raised an alarm (every alarm here is a false alarm by construction).
-d="$1"; id=$(basename $(dirname "$d"))-$(basename "$d")
+d="$1"; id=$(basename "$d")
 cd /repo || exit 2
 if [ -n "$(git status --porcelain --untracked-files=no)" ]; then echo "/repo not clean"; exit 2; fi
 git apply "$d/patch.diff" || { echo "$id: patch does not apply"; exit 2; }
